@@ -26,6 +26,16 @@ type c09Input struct {
 	SpanS      int    `json:"span_s"`
 	StepS      int    `json:"step_s"` // 0 = instant
 	TimeFilter bool   `json:"time_filter"`
+	// UnitMS is the time unit of all the numbers above (0 = 1000 ms): 100 ms exercises fractional-second
+	// grids, 15 s ranges beyond the engine's instant-query lookback.
+	UnitMS int `json:"unit_ms,omitempty"`
+}
+
+func (in c09Input) unit() int64 {
+	if in.UnitMS == 0 {
+		return sec
+	}
+	return int64(in.UnitMS) * 1e6
 }
 
 type c09Fn struct {
@@ -52,6 +62,9 @@ var c09Fns = []c09Fn{
 	{name: "stddev-by", op: "stddev_over_time", unwrap: true, group: true, vals: "pow2"},
 	{name: "stdvar-by", op: "stdvar_over_time", unwrap: true, group: true, vals: "pow2"},
 	{name: "quantile-by", op: "quantile_over_time", unwrap: true, group: true, param: 0.5, vals: "pow2"},
+	{name: "quantile1-by", op: "quantile_over_time", unwrap: true, group: true, param: 1, vals: "pow2"},
+	{name: "quantile0-by", op: "quantile_over_time", unwrap: true, group: true, param: 0, vals: "pow2"},
+	{name: "quantile99-by", op: "quantile_over_time", unwrap: true, group: true, param: 0.99, vals: "pow2"},
 	{name: "sum-bytes", op: "sum_over_time", unwrap: true, conv: "bytes", vals: "bytes"},
 	{name: "max-duration-by", op: "max_over_time", unwrap: true, conv: "duration", group: true, vals: "dur"},
 	{name: "avg-duration-seconds-by", op: "avg_over_time", unwrap: true, conv: "duration_seconds", group: true, vals: "dur"},
@@ -84,7 +97,7 @@ func c09Data(in c09Input, fn c09Fn) []mockq.Rec {
 			}
 			labels = append(labels, mockq.KV{K: "v", V: v})
 		}
-		recs = append(recs, mockq.Rec{TS: (c09Base + int64(s)) * sec, Line: "xyz", Labels: labels})
+		recs = append(recs, mockq.Rec{TS: c09Base*sec + int64(s)*in.unit(), Line: "xyz", Labels: labels})
 	}
 	for i, s := range in.A {
 		add("a", s, 0)
@@ -100,7 +113,7 @@ func c09Data(in c09Input, fn c09Fn) []mockq.Rec {
 }
 
 func c09Expr(in c09Input, fn c09Fn) *refmodel.RangeAgg {
-	e := &refmodel.RangeAgg{Op: fn.op, RangeNS: int64(in.RangeS) * sec, OffsetNS: int64(in.OffsetS) * sec}
+	e := &refmodel.RangeAgg{Op: fn.op, RangeNS: int64(in.RangeS) * in.unit(), OffsetNS: int64(in.OffsetS) * in.unit()}
 	if fn.unwrap {
 		e.Unwrap, e.Conv = "v", fn.conv
 	}
@@ -119,9 +132,9 @@ func c09Check(r *vkit.Run, in c09Input) bool {
 	fn := c09FnByName(in.Fn)
 	data := c09Data(in, fn)
 	expr := c09Expr(in, fn)
-	start := (c09Base + int64(in.StartS)) * sec
-	end := start + int64(in.SpanS)*sec
-	step := int64(in.StepS) * sec
+	start := c09Base*sec + int64(in.StartS)*in.unit()
+	end := start + int64(in.SpanS)*in.unit()
+	step := int64(in.StepS) * in.unit()
 	if in.StepS == 0 {
 		end = start
 	}
@@ -210,6 +223,31 @@ func c09Run(r *vkit.Run) {
 			break
 		}
 		nontrivial := false
+		// other time units on a reduced grid: 100 ms (fractional-second grids) and 15 s (ranges beyond the lookback)
+		for _, unit := range []int{100, 15000} {
+			for fi, fn := range c09Fns[:3] {
+				for _, rg := range []int{1, 2, 4} {
+					for _, off := range []int{0, 1} {
+						for _, start := range []int{0, 3, 5} {
+							for _, span := range []int{0, 3, 6, 7} {
+								for _, step := range []int{0, 1, 2, 3} {
+									if (step == 0) != (span == 0) {
+										continue
+									}
+									in := c09Input{A: d.a, Dup: d.dup, B: d.b, Fn: fn.name, RangeS: rg, OffsetS: off, StartS: start, SpanS: span, StepS: step, TimeFilter: true, UnitMS: unit}
+									if fi > 0 && (start != 3 || off != 0) {
+										continue
+									}
+									if c09Check(r, in) {
+										nontrivial = true
+									}
+								}
+							}
+						}
+					}
+				}
+			}
+		}
 		for fi, fn := range c09Fns {
 			full := fi < 3
 			for _, rg := range []int{1, 2, 4} {
@@ -257,7 +295,7 @@ func c09Run(r *vkit.Run) {
 		}
 		r.State(fmt.Sprintf("%d:%v", di, d))
 	}
-	r.Note("bounds", fmt.Sprintf("sample sets: all subsets of {0..8}s of size <=%d (+ doubled-timestamp and second-series variants); ranges {1,2,4}s x offsets {0,1,3}s x starts 0..6 x spans 0..8 x steps {instant,1,2,3,5}s x storage time-filtering on/off for count/avg/last; a reduced grid (starts {0,3}, spans {0,4,8}, steps {instant,1,3}) for the other %d function variants", maxSize, len(c09Fns)-3))
+	r.Note("bounds", fmt.Sprintf("sample sets: all subsets of {0..8}s of size <=%d (+ doubled-timestamp and second-series variants); ranges {1,2,4}s x offsets {0,1,3}s x starts 0..6 x spans 0..8 x steps {instant,1,2,3,5}s x storage time-filtering on/off for count/avg/last; a reduced grid (starts {0,3}, spans {0,4,8}, steps {instant,1,3}) for the other %d function variants; the three window-identifying functions again on grids in units of 100 ms and of 15 s", maxSize, len(c09Fns)-3))
 }
 
 func c09Replay(r *vkit.Run, v vkit.Violation) *vkit.Violation {
